@@ -92,6 +92,9 @@ def check_case(ctx, case):
                           signature=dict(kind='fit-crash', exception='ZeroDivisionError', model=case['model'],
                                          in_curve_fit=bool(rec.calls)))
             return
+        if isinstance(err, OverflowError) and case['method'] == 'lm':
+            ctx.reject('lm-diverged:OverflowError')     # "lm where it converges"
+            return
         if isinstance(err, RuntimeError) and 'Optimal parameters not found' in str(err):
             ctx.reject('optimizer-did-not-converge')
             return
@@ -180,8 +183,11 @@ def check_case(ctx, case):
         # of the objective; with fit_sigma='exp' the weights span many orders of magnitude)
         tss = float(np.sum((y / (1.0 if sg is None else sg)) ** 2))
         if obj - best > 1e-4 * obj and obj - best > 1e-6 * tss:
+            at_lower = bool(any(abs(c) <= 1e-9 * max(1.0, float(h_)) for c, h_ in zip(cof, hi)))
             ctx.violation('not-locally-optimal', 're-optimising near the reported parameters %r lowers the objective '
-                          'from %r to %r' % (cof, obj, best), case)
+                          'from %r to %r' % (cof, obj, best), case,
+                          signature=dict(kind='not-locally-optimal', sum_model='+' in case['model'],
+                                         parameter_at_lower_bound=at_lower))
 
 
 def run(ctx):
